@@ -4,4 +4,8 @@ CHECKS = {
    technique="stateless model checking of the real code: exhaustive schedule enumeration under a controlled scheduler with deviation/preemption bounding",
    text="Every interleaving (within the stated deviation / preemption bound) of the real tasks of wild's section-graph traversal is executed on 7 harness programs built to collide on worker slots; on each execution: termination, no deadlock, no request left in a slot, every group parked, no two tasks inside one group, every sent request handled, exit status and output bytes equal to the default schedule.",
    note="Sequentially consistent interleavings only; scheduling points are the shimmed sync operations of layout.rs and task begin/end; harness programs have <= 4 objects; bound 2 deviations (quick), 3 deviations + preemption bound 0/1 (thorough)."),
+ "C40": dict(engine="wsched", level="model_checking", ref="DESIGN.md §2 C40, §1.3",
+   technique="stateless model checking of the real code: exhaustive schedule enumeration under a controlled scheduler with deviation/preemption bounding",
+   text="Every interleaving (within the stated bound) of the real input-splitting and bucket tasks of wild's string merging is executed, on the production 16-bucket build and on the verif-b2 build (same source, 2 buckets), for G<=4 input groups and split parallelism P<=3; on each execution: termination, no deadlock, each bucket takes groups 0..G-1 exactly once in order, all buckets finish, no input group stranded, pool returns to capacity (in-code assert), exit status and output bytes equal to the default schedule; error path (unterminated string) fails rather than hangs.",
+   note="Sequentially consistent interleavings only; 2-bucket build assumed representative of bucket-bucket and bucket-input interactions (verdict for 16 buckets rests on the b16 runs, bound 1 quick / restricted bound 2 thorough)."),
 }
